@@ -124,9 +124,11 @@ bool splinetable<Alloc>::write_key(const char* key, const T& value){
 	size_t valuelen = valuedata.size() + 1;
 	//For normal (short) keys, we get up to 68 bytes of storage, but for longer keywords
 	//the 'HIERARCH Keyword Convention' kicks in and limits us further
-	if(valuelen-1>maxdatalen){
+	//each single quote in the value takes two characters in the header card
+	size_t storedlen = valuelen-1 + std::count(valuedata.begin(),valuedata.end(),'\'');
+	if(storedlen>maxdatalen){
 		throw std::runtime_error("Value is too long to be stored as a FITS keyword ('"
-								 +valuedata+"' has length "+std::to_string(valuelen-1)
+								 +valuedata+"' has length "+std::to_string(storedlen)
 								 +", but a maximum of "+std::to_string(maxdatalen)+
 								 " characters will fit with this key since continued "
 								 "string keywords are not currently implemented.)");
